@@ -207,7 +207,7 @@ def rule_slots(ck):
                         'depth, magnitude' % (slot, '/'.join(sorted(roles)), u(e)[:50]))
     # format tables inside the readers
     z = P.func(R + 'zmap_ascii')
-    enums = [c for c in P.classes.values() if getattr(c, 'enclosing_func', None) is z]
+    enums = _zmap_enums(P, z)
     o = ck.ob('C19-D2.zmaptable', z, 'ColumnIndex', enums[0].node if enums else z.node)
     if len(enums) != 1:
         o.unknown('no ColumnIndex class')
@@ -240,7 +240,7 @@ def rule_slots(ck):
             continue
         got = []
         for a in dts[0].args:
-            m = re.findall(r"ColumnIndex\.(\w+)|\['(\w+)'\]", u(a))
+            m = re.findall(r"(?:%s)\.(\w+)|\['(\w+)'\]" % '|'.join([c_.node.name for c_ in _zmap_enums(P, P.func(R + 'zmap_ascii'))] or ['ColumnIndex']), u(a))
             got.append((m[0][0] or m[0][1]) if m else '?')
         (o.ok('(year, month, day, hour, minute, second)') if got == fields else o.fail('datetime fields are %s, expected %s' % (got, fields)))
     # ndk hypocentre fields
@@ -256,14 +256,75 @@ def rule_slots(ck):
             (o.ok() if got == want[key] and src == 'line1' else o.fail('%s is read from %s[%s] (NDK hypocentre line: %s at %s)' % (key, src, got, key, want[key])))
 
 
+VALUE_FIELDS = ('lat', 'lon', 'depth', 'mw', 'mag', 'magnitude', 'latitude', 'longitude')
+NARROW_FLOAT_CODES = ('<f4', 'f4', '>f4', '=f4', 'float32', 'f', '<f2', 'f2', 'float16', 'e', 'single', 'half')
+
+
+def rule_value_width(ck):
+    """D3.width: a reader that declares the types of the columns it reads (a structured dtype / a per-column type table) reads
+    latitude, longitude, depth and magnitude as doubles - the width the catalog stores them in.  A column read as float32 comes
+    back as the nearest single-precision number (42.9043 -> 42.904300689697266, a magnitude 4.95 -> 4.949999809, i.e. below the
+    bin edge 4.95), not as the encoded value."""
+    P = ck.prog
+    ck.clause('D3')
+    n = 0
+    for q in ('csep.utils.readers.ingv_horus', 'csep.utils.readers.zmap_ascii', 'csep.utils.readers.jma_csv', 'csep.utils.readers.csep_ascii',
+              'csep.utils.readers.ingv_emrcmt', 'csep.utils.readers.ndk'):
+        f = P.funcs.get(q)
+        if f is None:
+            continue
+        for d in all_nodes(f):
+            pairs = []
+            if isinstance(d, ast.Dict):
+                for k, v in zip(d.keys, d.values):
+                    kk = const_value(k) if k is not None else NotImplemented
+                    if isinstance(kk, str) and isinstance(v, (ast.Tuple, ast.List)):
+                        for x in v.elts:
+                            c = const_value(x)
+                            if isinstance(c, str):
+                                pairs.append((kk, c, v))
+                            elif isinstance(x, ast.Attribute) and x.attr in ('float32', 'float16', 'single', 'half'):
+                                pairs.append((kk, x.attr, v))
+            elif isinstance(d, (ast.List, ast.Tuple)) and d.elts and all(isinstance(e, ast.Tuple) and len(e.elts) == 2 and isinstance(const_value(e.elts[0]), str) for e in d.elts):
+                for e in d.elts:
+                    c = const_value(e.elts[1])
+                    if isinstance(c, str):
+                        pairs.append((const_value(e.elts[0]), c, e))
+                    elif isinstance(e.elts[1], ast.Attribute):
+                        pairs.append((const_value(e.elts[0]), e.elts[1].attr, e))
+            for name, code, node in pairs:
+                if name.lower() not in VALUE_FIELDS:
+                    continue
+                n += 1
+                o = ck.ob('C19-D3.width', f, '%s: %s' % (name, code), node)
+                (o.fail('column `%s` is read as %s: the decoded value is the nearest single-precision number, not the encoded one (42.9043 comes '
+                        'back as 42.904300689697266; a magnitude written 4.95 as 4.949999809, below the bin edge 4.95)' % (name, code))
+                 if code in NARROW_FLOAT_CODES else o.ok('read as %s' % code))
+    ck.extra['typed_value_columns'] = n
+
+
+def _zmap_enums(P, z):
+    """the class whose members name the ZMAP columns: nested in the reader or at module level, recognised by its use -
+    `<row>[<Class>.<Member>]` subscripts inside the reader"""
+    used = set()
+    for n in all_nodes(z):
+        if isinstance(n, ast.Subscript):
+            for x in ast.walk(n.slice):
+                if isinstance(x, ast.Attribute) and isinstance(x.value, ast.Name):
+                    used.add(x.value.id)
+    out = [c for c in P.classes.values() if getattr(c, 'enclosing_func', None) is z]
+    out += [c for c in P.classes.values() if c.module is z.module and getattr(c, 'enclosing_func', None) is None and c.node.name in used and c not in out]
+    return [c for c in out if c.node.name in used] or out
+
+
 def rule_kinds(ck):
     P = ck.prog
     ck.clause('D3')
     z = P.func(R + 'zmap_ascii')
-    enums = [c for c in P.classes.values() if getattr(c, 'enclosing_func', None) is z]
+    enums = _zmap_enums(P, z)
     if enums:
         c = enums[0]
-        used_as_index = any(isinstance(n, ast.Subscript) and 'ColumnIndex.' in u(n.slice) for n in all_nodes(z))
+        used_as_index = any(isinstance(n, ast.Subscript) and (c.node.name + '.') in u(n.slice) for n in all_nodes(z))
         o = ck.ob('C19-D3.enum', z, 'class %s(%s)' % (c.node.name, ', '.join(u(b) for b in c.node.bases)), c.node)
         bases = [P.canon(z, b) for b in c.node.bases]
         if used_as_index and 'enum.IntEnum' not in bases and 'builtins.int' not in bases:
@@ -456,6 +517,7 @@ def header_predicates(P, f):
     `if <...>: continue` statements that come before the row is decoded, with the nested helpers / lambdas they call"""
     out = []
     helpers = {}
+    pkg_helpers = header_predicates.pkg_calls
     for q, h in P.funcs.items():
         if h.parent is f:
             helpers[h.node.name] = list(ast.walk(h.node))
@@ -470,10 +532,21 @@ def header_predicates(P, f):
                 if isinstance(c, ast.Call) and isinstance(c.func, ast.Name) and c.func.id in helpers:
                     nodes += helpers[c.func.id]
                     used = True
+                elif isinstance(c, ast.Call):
+                    # a helper of the package at module level (or one that answers to the name of a former nested helper)
+                    q = callee(P, f, c)
+                    g = P.funcs.get(q) if q else None
+                    if g is not None and g is not f and g.module is f.module:
+                        nodes += list(ast.walk(g.node))
+                        pkg_helpers.add(id(c))
+                        used = True
             txt = u(n.test).lower()
             if used or 'header' in txt or "[0]" in txt:
                 out.append((n, nodes))
     return out
+
+
+header_predicates.pkg_calls = set()
 
 
 def rule_header(ck):
@@ -503,6 +576,8 @@ def rule_header(ck):
                         continue
                     if nm in ('all', 'any', 'len', 'bool'):
                         continue
+                    if id(x) in header_predicates.pkg_calls:
+                        continue
                     bad = bad or x
                 if isinstance(x, ast.Compare) and any(isinstance(op, (ast.Eq, ast.NotEq, ast.In, ast.NotIn)) for op in x.ops):
                     sides = [x.left] + list(x.comparators)
@@ -514,4 +589,4 @@ def rule_header(ck):
     ck.extra['header_tests'] = n
 
 
-RULES = [rule_dispatch, rule_slots, rule_kinds, rule_rollover, rule_rank, rule_records, rule_time_and_order, rule_header]
+RULES = [rule_dispatch, rule_slots, rule_kinds, rule_rollover, rule_rank, rule_records, rule_time_and_order, rule_header, rule_value_width]
